@@ -10,7 +10,7 @@ EXPLANATION = ('Static rules: I1 RepeatTask counts seq only by +1, only after th
                'iteration re-arms a fresh new_timer(self.interval) that replaces it (one period between ticks, never earlier however late '
                'the executor runs); I3 the stream drivers relay Some(v) as next, end with take()+complete (or error) and Ready, and '
                'construct Pending only by propagating the inner poll; the one-shot task functions have their documented shape (C03.S1) and '
-               'the _at forms convert the deadline in the right direction (C07.T2). I6 the future relay (FutureTask::poll, behind from_future/from_future_result) takes its observer out of the argument slot only after the inner future answered Ready and returns Pending only when the future did (a future pending k polls loses nothing); I5 every Scheduler::schedule awaits the delay timer to Ready before the first poll of the task, for every non-None delay (same rule as C19.H2); I4 timer and interval start their clock at subscription: the plain constructors do not read the clock (same rule as C13.Z1), the _at forms compute deadline - now forwards (same rule as C07.T2). Does not decide wall/virtual time ("exactly one '
+               'the _at forms convert the deadline in the right direction (C07.T2). I7 new_timer creates the backend timer in its own body (no async block around it): the clock of a timer starts at creation, which RepeatTask::new, the re-arm after a tick and interval_at rely on; I6 the future relay (FutureTask::poll, behind from_future/from_future_result) takes its observer out of the argument slot only after the inner future answered Ready and returns Pending only when the future did (a future pending k polls loses nothing); I5 every Scheduler::schedule awaits the delay timer to Ready before the first poll of the task, for every non-None delay (same rule as C19.H2); I4 timer and interval start their clock at subscription: the plain constructors do not read the clock (same rule as C13.Z1), the _at forms compute deadline - now forwards (same rule as C07.T2). Does not decide wall/virtual time ("exactly one '
                'period"), clock jumps or poll orders: timing is delegated to the timer future, which is trusted.')
 ASSUMPTIONS = ['the timer future completes no earlier than its duration']
 
@@ -29,7 +29,44 @@ def check(cx):
 
 
 def _check_own(cx):
-    return i12(cx) + ([] if cx.control else i3(cx) + i4(cx) + i5(cx) + i6(cx))
+    return i12(cx) + ([] if cx.control else i3(cx) + i4(cx) + i5(cx) + i6(cx) + i7(cx))
+
+
+def i7(cx):
+    """a timer's clock starts when it is created: new_timer(dur) makes the backend timer itself, in its own body, and hands it out —
+    it builds no async block around it. RepeatTask arms the timer of its next period when it is constructed / right after a tick and
+    polls it later; interval_at relies on the first period running concurrently with the start delay. A timer that only starts at
+    its first poll makes the first tick (and every period after a late poll) longer than the period."""
+    from ..expr import walk
+    F = cx.facts
+    res = []
+    n = 0
+    for fn in sorted(F.fns.values(), key=lambda f: f['key']):
+        if fn['kind'] != 'fn' or fn.get('name') != 'new_timer' or 'scheduler' not in fn.get('file', ''):
+            continue
+        n += 1
+        g = cx.graph(fn['key'], inline=False)
+        lazy = []
+        eager = []
+        for x in g.nodes:
+            for e in list(x.get('args') or []) + [x.get('rhs')]:
+                if e is None:
+                    continue
+                for y in walk(e):
+                    if y[0] == 'agg' and y[1] in ('coroutine', 'coroutine_closure'):
+                        lazy.append(x)
+            if x['kind'] == 'call' and not x['ctx'] and any(mentions(a, lambda z: z[0] == 'arg' and z[1] == 1) for a in (x.get('args') or [])) or \
+                    (x['kind'] == 'call' and x['name'] == '<fnptr>' and any(mentions(a, lambda z: z[0] == 'arg' and z[1] == 1) for a in (x.get('args') or []))):
+                eager.append(x)
+        ok = bool(eager) and not lazy
+        res.append(Finding(ID, 'I7', cx.label(fn) if fn.get('impl') else fn['path'], ok,
+                           'the backend timer is created from the duration in the body of new_timer (its clock starts at creation)' if ok else
+                           ('new_timer wraps the timer in an async block: the timer is only created (and its clock only starts) at the first poll — a timer armed in advance (RepeatTask::new, the re-arm after a tick, interval_at) runs late by the time until it is first polled'
+                            if lazy else 'new_timer does not create a timer from its duration'),
+                           g.loc(lazy[0]) if lazy else fn['span']))
+    if n < 1:
+        res.append(Finding(ID, 'I7', 'floor', False, 'new_timer not found'))
+    return res
 
 
 def i6(cx):
